@@ -285,20 +285,52 @@ func runNormalised(pr *rules.Property, repo string, cfg core.Config, p *core.Pro
 		}
 		cur = next
 	}
-	if cur == p {
-		return nil
-	}
-	cur.Inlined = inlined
-	rp = core.NewReport(pr.Meta.ID, cur)
-	rp.Count("module_packages", len(cur.Pkgs))
-	rp.Count("module_functions", len(cur.ModuleFuncs()))
-	pr.RunLocked(cur, rp)
-	if os.Getenv("SPG_DEBUG") != "" {
-		fmt.Fprintf(os.Stderr, "normal form (expanded %v): %d open obligation(s)\n", inlined, nBad(rp))
-		for _, o := range rp.Obs {
-			if o.Status == core.Violated || o.Status == core.Undecided {
-				fmt.Fprintf(os.Stderr, "   %s %s %s: %s\n", o.Rule, o.Construct, o.Pos, o.Detail)
+	evaluate := func(cur *core.Program, inlined []string) *core.Report {
+		cur.Inlined = inlined
+		rp := core.NewReport(pr.Meta.ID, cur)
+		rp.Count("module_packages", len(cur.Pkgs))
+		rp.Count("module_functions", len(cur.ModuleFuncs()))
+		pr.RunLocked(cur, rp)
+		if os.Getenv("SPG_DEBUG") != "" {
+			fmt.Fprintf(os.Stderr, "normal form (expanded %v): %d open obligation(s)\n", inlined, nBad(rp))
+			for _, o := range rp.Obs {
+				if o.Status == core.Violated || o.Status == core.Undecided {
+					fmt.Fprintf(os.Stderr, "   %s %s %s: %s\n", o.Rule, o.Construct, o.Pos, o.Detail)
+				}
 			}
+		}
+		return rp
+	}
+	if cur != p {
+		rp = evaluate(cur, inlined)
+		if nBad(rp) == 0 {
+			return rp
+		}
+	}
+	// last resort: single-exit functions get their tail copied into every branch (exact; see TailDupOverlay)
+	cur2, dup := cur, false
+	inlined2 := append([]string{}, inlined...)
+	for k := 0; k < 3; k++ {
+		ov, names := core.TailDupOverlay(cur2)
+		if len(ov) == 0 {
+			break
+		}
+		for f, b := range ov {
+			merged[f] = b
+		}
+		inlined2 = append(inlined2, names...)
+		next, err := core.LoadOverlay(repo, cfg, merged)
+		if err != nil {
+			if os.Getenv("SPG_DEBUG") != "" {
+				fmt.Fprintf(os.Stderr, "tail-duplicated form does not type-check: %v\n", err)
+			}
+			return rp
+		}
+		cur2, dup = next, true
+	}
+	if dup {
+		if rp2 := evaluate(cur2, inlined2); rp == nil || nBad(rp2) < nBad(rp) {
+			rp = rp2
 		}
 	}
 	return rp
